@@ -48,6 +48,8 @@ def run(idx, rep, tier):
     c10.r3(idx, _Proxy(rep, "R4"))
     c10.r5(idx, _Proxy(rep, "R4"))
     r5(idx, rep)
+    from . import c09
+    c09.empty_collection(idx, rep, "R2")
     rep.stats["exhaustive"] = True
 
 
